@@ -10,7 +10,7 @@ use crate::parsers::{
     parse_allowed_timezone_formats, parse_identifier, parse_offset, FormattableOffset,
     FormattableTime, Precision,
 };
-use crate::provider::{TimeZoneOffset, TimeZoneProvider};
+use crate::provider::TimeZoneProvider;
 use crate::{
     builtins::core::Instant,
     iso::{IsoDate, IsoDateTime, IsoTime},
@@ -21,6 +21,14 @@ use crate::{
 use crate::Sign;
 
 const NS_IN_HOUR: i128 = 60 * 60 * 1000 * 1000 * 1000;
+const NS_PER_DAY: i128 = 24 * NS_IN_HOUR;
+
+/// A transition that skips wall-clock time, with the offsets (in nanoseconds) around it.
+struct Gap {
+    transition: i128,
+    offset_before: i128,
+    offset_after: i128,
+}
 
 /// A UTC time zone offset stored in minutes
 #[derive(Debug, Clone, Copy, PartialEq, Eq)]
@@ -270,7 +278,14 @@ impl TimeZone {
 
         // 6-15. The offsets in force on either side of the transition that skipped `iso`.
         let local = iso.as_unchecked_nanoseconds();
-        let (offset_before, offset_after) = self.gap_offsets_around(local, provider)?;
+        let (offset_before, offset_after) = match self.gap_around(local, provider)? {
+            Some(gap) => (gap.offset_before, gap.offset_after),
+            // The provider does not expose the transition: use the offsets a day either side.
+            None => (
+                self.get_offset_nanos_for(local - NS_PER_DAY, provider)?,
+                self.get_offset_nanos_for(local + NS_PER_DAY, provider)?,
+            ),
+        };
         // 16. If disambiguation is earlier, the reading is moved back by the size of the
         //     gap and resolved before the transition; otherwise (compatible or later) it is
         //     moved forward by the size of the gap and resolved after the transition.
@@ -283,42 +298,42 @@ impl TimeZone {
         EpochNanoseconds::try_from(epoch_ns)
     }
 
-    /// Returns the offsets (in nanoseconds) before and after the transition whose gap contains
-    /// the wall-clock reading `local`, given as nanoseconds from the epoch.
-    fn gap_offsets_around(
+    /// Finds the transition whose gap contains the wall-clock reading `local`, given as
+    /// nanoseconds from the epoch.
+    fn gap_around(
         &self,
         local: i128,
         provider: &impl TimeZoneProvider,
-    ) -> TemporalResult<(i128, i128)> {
-        const NS_PER_DAY: i128 = 24 * NS_IN_HOUR;
-        if let Self::IanaIdentifier(identifier) = self {
-            // A reading skipped by the transition at `t` lies in `t + before..t + after` and
-            // offsets are shorter than a day, so `t` is within a day of the reading taken as
-            // UTC. Walk the transitions of that window, newest first.
-            let mut cursor = local + NS_PER_DAY;
-            while cursor > local - NS_PER_DAY {
-                let after = provider.get_named_tz_offset_nanoseconds(identifier, cursor)?;
-                let Some(transition) = after.transition_epoch else {
-                    break;
-                };
-                let transition = i128::from(transition) * 1_000_000_000;
-                if transition > cursor {
-                    break;
-                }
-                let before = provider.get_named_tz_offset_nanoseconds(identifier, transition - 1)?;
-                let offset_before = i128::from(before.offset) * 1_000_000_000;
-                let offset_after = i128::from(after.offset) * 1_000_000_000;
-                if (transition + offset_before..transition + offset_after).contains(&local) {
-                    return Ok((offset_before, offset_after));
-                }
-                cursor = transition - 1;
+    ) -> TemporalResult<Option<Gap>> {
+        let Self::IanaIdentifier(identifier) = self else {
+            return Ok(None);
+        };
+        // A reading skipped by the transition at `t` lies in `t + before..t + after` and
+        // offsets are shorter than a day, so `t` is within a day of the reading taken as
+        // UTC. Walk the transitions of that window, newest first.
+        let mut cursor = local + NS_PER_DAY;
+        while cursor > local - NS_PER_DAY {
+            let after = provider.get_named_tz_offset_nanoseconds(identifier, cursor)?;
+            let Some(transition) = after.transition_epoch else {
+                break;
+            };
+            let transition = i128::from(transition) * 1_000_000_000;
+            if transition > cursor {
+                break;
             }
+            let before = provider.get_named_tz_offset_nanoseconds(identifier, transition - 1)?;
+            let offset_before = i128::from(before.offset) * 1_000_000_000;
+            let offset_after = i128::from(after.offset) * 1_000_000_000;
+            if (transition + offset_before..transition + offset_after).contains(&local) {
+                return Ok(Some(Gap {
+                    transition,
+                    offset_before,
+                    offset_after,
+                }));
+            }
+            cursor = transition - 1;
         }
-        // The provider does not expose the transition: use the offsets a day either side.
-        Ok((
-            self.get_offset_nanos_for(local - NS_PER_DAY, provider)?,
-            self.get_offset_nanos_for(local + NS_PER_DAY, provider)?,
-        ))
+        Ok(None)
     }
 
     pub(crate) fn get_start_of_day(
@@ -334,7 +349,7 @@ impl TimeZone {
         if !possible_nanos.is_empty() {
             return Ok(possible_nanos[0]);
         }
-        let TimeZone::IanaIdentifier(identifier) = self else {
+        let TimeZone::IanaIdentifier(_) = self else {
             debug_assert!(
                 false,
                 "4. Assert: IsOffsetTimeZoneIdentifier(timeZone) is false."
@@ -349,37 +364,15 @@ impl TimeZone {
         // possibleEpochNsAfter is not empty (i.e., isoDateTimeAfter represents the first local time
         // after the transition).
 
-        // Similar to disambiguation, we need to first get the possible epoch for the current start of day +
-        // 3 hours, then get the timestamp for the transition epoch.
-        let after = IsoDateTime::new_unchecked(
-            *iso_date,
-            IsoTime {
-                hour: 3,
-                ..Default::default()
-            },
-        );
-        let Some(after_epoch) = self
-            .get_possible_epoch_ns_for(after, provider)?
-            .into_iter()
-            .next()
-        else {
+        // Midnight was skipped: the day starts at the transition that skipped it.
+        let Some(gap) = self.gap_around(iso.as_unchecked_nanoseconds(), provider)? else {
             return Err(TemporalError::r#type()
                 .with_message("Could not determine the start of day for the provided date."));
         };
 
-        let TimeZoneOffset {
-            transition_epoch: Some(transition_epoch),
-            ..
-        } = provider.get_named_tz_offset_nanoseconds(identifier, after_epoch.0)?
-        else {
-            return Err(TemporalError::r#type()
-                .with_message("Could not determine the start of day for the provided date."));
-        };
-
-        // let provider.
         // 6. Assert: possibleEpochNsAfter's length = 1.
         // 7. Return possibleEpochNsAfter[0].
-        EpochNanoseconds::try_from(i128::from(transition_epoch) * 1_000_000_000)
+        EpochNanoseconds::try_from(gap.transition)
     }
 }
 
